@@ -198,7 +198,13 @@ const S_STMTS = {
   loop_op: 'for (const q of arr) x += q + f();',
   proto: 'y = X.prototype.concat.call(a, f(), b);',
   spread: 'y = a.concat(...arr, f());',
-  unconfigured: 'y = a.toUpperCase();'
+  unconfigured: 'y = a.toUpperCase();',
+  // the init clause of a for statement may hold `in` only inside parentheses / brackets
+  for_init_in_method: 'for (a.concat(k in o); c; c = false) y = 1;',
+  for_init_in_tpl: 'for (`${k in o}${a}`; c; c = false) y = 2;',
+  for_init_in_seq: 'for ((k in o, x = a + b); c; c = false) y = 3;',
+  for_init_in_plus: 'for (x = (k in o) + a; c; c = false) y = 4;',
+  if_seq_test: 'if ((f(), a + b)) y = 5;'
 }
 function familyS (tier, opts = {}) {
   const names = Object.keys(S_STMTS)
@@ -277,7 +283,7 @@ function familyQ (tier, opts = {}) {
   const N = tier === 'thorough' ? 3 : 2
   // (a holder that is a logged spy, `o.concat`, is left out: reading a static path after the this argument is the
   // stated exemption of C01 and a logging spy would report it)
-  const holders = tier === 'thorough' ? ['X.prototype', 'String.prototype', 'g()', 'X.prototype.q'] : ['X.prototype', 'g()']
+  const holders = tier === 'thorough' ? ['X.prototype', 'String.prototype', 'g()', 'X.prototype.q', 'X[g()]', "X['prototype']", 'g().q[k]'] : ['X.prototype', 'g()', 'X[g()]', "X['prototype']"]
   const leaves = []
   const stats = { states: 1, transitions: 0 }
   const dims = [{ name: 'holder', symbols: holders, free: true }, { name: 'method', symbols: ['concat', 'trim'], free: true }, { name: 'fn', symbols: ['call', 'apply'], free: true }]
